@@ -152,6 +152,25 @@ CHECKS = {
         technique=TECH + "seeded dependency-mutation/read/restart histories against a "
                          "recomputation model, getters as counting callback points",
         design="4 (C12)"),
+    "C16": dict(
+        level="exploration",
+        text=("Seeded simulated histories on tree-shaped object graphs (a fresh object at every "
+              "insertion) over child / children / table links: an extended name of 1-3 links, "
+              "each '.' or ':', is registered once through on_trait_change (handler arity 0, 3 or "
+              "4) and once through observe for the corresponding expression. Link reassignment, "
+              "list and dict mutators, container reassignment, gc, drop of detached nodes and "
+              "removal of both registrations at a generated point; after every op every object "
+              "ever created is probed. Oracle: for every probe legacy called <=> observe called "
+              "<=> reachable in the model; reassignment of an intermediate link is reported by "
+              "both for '.' links and by neither for ':' links; nothing is reported for "
+              "containers behind ':' links; silence after removal. Sampling, not proof."),
+        note=("In-place mutation of a container at a '.' link is not asserted for the legacy "
+              "side (its documentation says such an event 'may' be reported); agreement is "
+              "boolean; 1- and 2-argument legacy handlers are rejected by traits itself for "
+              "intermediate changes and not used."),
+        technique=TECH + "seeded mutation histories on trees with probes, legacy listener vs "
+                         "observe vs from-scratch reachability model",
+        design="4 (C16)"),
 }
 
 NOT_APPLICABLE = {
